@@ -102,7 +102,26 @@ pub fn gen_pair(ch: &mut Chooser) -> Pair {
     let (mut ia, mut ib) = (0, 0);
     let mut schedule = vec![];
     // scripted openings: the situations in which per-thread or per-process state would be confused
-    match ch.below(13) {
+    match ch.below(15) {
+        13 => {
+            // a string literal in A that ends in a lexical error; B's next string literals follow directly
+            a.insert(0, (*ch.pick(&["(display \"abc\\qdef\")", "(list \"left over \\x;\")", "(define s \"never closed"])).to_string());
+            b.splice(0..0, ["(list \"hello\" \"x\")".to_string(), "(quote |sym bol|)".to_string()]);
+            schedule.extend([true, false, false]);
+            ia = 1;
+            ib = 2;
+            labels.push("a-fails");
+            labels.push("a-fails-inside-a-string-literal");
+        }
+        14 => {
+            // A makes and drops large vectors (far more cells in total than are ever alive); B makes small ones
+            a.splice(0..0, (0..5).map(|_| "@nobudget:(vector-length (make-vector 800000 0))".to_string()));
+            b.splice(0..0, ["(vector-length (make-vector 300000 0))".to_string(), "(vector-length (make-vector 300000 'x))".to_string(), "(make-vector 3 'x)".to_string()]);
+            schedule.extend([true, true, true, true, true, false, false, false]);
+            ia = 5;
+            ib = 3;
+            labels.push("a-allocates-a-lot-in-total");
+        }
         12 => {
             // a macro use in A that ends in an error while matching; B's next use of a macro of its own follows directly
             b.splice(0..0, ["(define x 100)".to_string(), "(define-syntax plus-x (syntax-rules () ((plus-x v) (+ v x))))".to_string(), "(plus-x 1)".to_string(), "(plus-x 2)".to_string()]);
@@ -330,6 +349,13 @@ fn run_interleaved(p: Pair, skip_a_syntax: bool) -> Interleaved {
                 }
                 if f == "@file" {
                     let _ = run_file_step(&mut sa, "a", 42);
+                    continue;
+                }
+                if let Some(text) = f.strip_prefix("@nobudget:") {
+                    // (the harness's own allocation budget would refuse this before the interpreter sees it)
+                    let saved = sa.budget.take();
+                    let _ = sa.eval(text);
+                    sa.budget = saved;
                     continue;
                 }
                 let _ = sa.eval(f);
